@@ -318,3 +318,19 @@ package api
 //@   at after (*DatabaseAPI).processQuery ghost qOK = ret0
 //@   at after (*DatabaseAPI).processQuery ghost qDone = true
 //@   at call (*DatabaseAPI).processSub assert qDone && qOK && arg1 == opID && arg2 == regSub
+
+// ---- C12: resetting a session ends it: if the request carries a session cookie, that session is
+// deleted, whatever the request is otherwise allowed to do (the endpoint is open to anyone)
+//@ func authReset
+//@   requires r != nil && w != nil
+//@   nopanic off
+//@   modifies *
+//@   ghost var cerr error = nil
+//@   ghost var deleted bool = false
+//@   ghost var which string = ""
+//@   ghost var cval string = ""
+//@   at after (*Request).Cookie ghost cerr = ret1
+//@   at after (*Request).Cookie ghost cval = (ret1 == nil ? ret0.Value : "")
+//@   at optional call deleteSession ghost deleted = true
+//@   at optional call deleteSession ghost which = arg0
+//@   ensures cerr == nil ==> deleted && which == cval
